@@ -244,7 +244,15 @@ class Inference:
                 self.problem('ABSOLUTE-LEVEL', t, f'{nm} carries an absolute tolerance in signal units')
             return ONE
         if nm in ('argmax', 'argmin', 'flatnonzero', 'nonzero0', 'arange', 'searchsorted', 'argsort'):
-            return SAMP if nm != 'arange' else self.unify([self.flat(u_) for u_ in au], t, 'arange bounds')
+            if nm == 'arange':
+                return self.unify([self.flat(u_) for u_ in au], t, 'arange bounds')
+            # a position counts along the axis of the searched array: samples for a time series, an ordinal (cycle / rank) for a per-cycle column or a
+            # sorted copy (sorting forgets the time axis, except for a time axis itself, which is sorted already)
+            if nm == 'searchsorted':
+                return SAMP if au and self.flat(au[0]) == SEC else COUNT
+            if args and any(x[0] in ('col', 'nrows') or x[0] == 'call' and x[1] == 'sort' for x in T.walk(args[0])):
+                return COUNT
+            return SAMP
         if nm in ('rank',):
             return ONE
         if nm in ('isnan', 'any', 'all', 'isfinite', 'count'):
